@@ -18,6 +18,9 @@ CHECKS = {
  "C17": ("Bounded exhaustive exploration: every sequence of up to 4 (quick) / 5 (thorough) declarations over 9 declaration kinds (constant, function with empty / 3-statement / 200-statement body, function head, struct, word, opaque struct, import) x {private, pub, pub extern} - that is every pattern of private zones up to that length. For each module the real build_header() output is printed and compared line by line with the XML of the real parser run on the model's projection (pub declarations in order, pub cleared, bodies dropped), read back and compared with the projection's model tree, and the declaration count is checked.",
          "Trusted: grammar::project_header as the definition of the public interface; the XML printer (itself checked by C16). Not covered: modules with more declarations than the bound.",
          "explicit-state enumeration of all declaration sequences up to a length bound with a differential oracle (header vs. projection)", "5 (C17)"),
+ "C20": ("Bounded exhaustive exploration: every module of the S-AST space (same derivations as C16: all leaf forms, operators, expression trees up to 2/3 operators, statement nestings, type terms in every position, declarations and declaration pairs) that contains no builtin call, and every corpus file the first generation parses without error, is parsed, rebuilt, parsed again and rebuilt again by the real code; the two trees are compared modulo locations, literal spelling and literal type suffix, and the two texts byte for byte. A secondary pass removes the rebuilder's deliberate annotations so that the known annotation findings do not hide other round-trip defects.",
+         "Trusted: the model grammar that generates the inputs; the tree walker over the public AST. Not covered: derivations beyond the bounds; modules with builtin calls (excluded by the property).",
+         "exhaustive enumeration of grammar derivations up to a size bound with a metamorphic round-trip oracle", "5 (C20)"),
 }
 
 NOT_YET = {}
